@@ -72,7 +72,10 @@ impl Stack {
         // pending at the toplevel.
         self.0[0].exprs_to_eval.clear();
         self.0[0].bindings_next_block.clear();
-        self.0[0].evalled_values.truncate(1);
+        // The lowest entry is not necessarily the initial Unit (a
+        // finished evaluation may have popped it), so reset the value
+        // stack rather than keeping whatever is at the bottom.
+        self.0[0].evalled_values = vec![Value::unit()];
         self.0[0].bindings.block_bindings.truncate(1);
     }
 
